@@ -136,11 +136,11 @@ type Method struct {
 }
 
 type Service struct {
-	Name        string    `json:"name"`
-	HasConfig   bool      `json:"has_config,omitempty"`
-	BasePath    string    `json:"base_path,omitempty"`
-	Headers     []Header  `json:"headers,omitempty"`
-	Methods     []*Method `json:"methods,omitempty"`
+	Name      string    `json:"name"`
+	HasConfig bool      `json:"has_config,omitempty"`
+	BasePath  string    `json:"base_path,omitempty"`
+	Headers   []Header  `json:"headers,omitempty"`
+	Methods   []*Method `json:"methods,omitempty"`
 }
 
 func (r *Request) JSON() string {
